@@ -124,6 +124,16 @@ def updateRows (ndr : Nat) (active : List Nat) (old fresh : COO) : COO :=
     faces removed, mapped to the full grid, no scaling (`faces_in_subgrid` has no repetitions). -/
 def partialFresh (ndr ndc : Nat) (s : Sub) : COO := toGlobal ndr ndc s
 
+/-- a partial discretisation whose active grid is itself split into subproblems (parameters
+    `specified_*` together with `partition_arguments`): the subproblems `subs` (in the numbering of the ACTIVE
+    grid) are glued and scaled on the active grid FIRST, then the result is lifted to the full grid through
+    the maps of `outer` (`extracted_faces`, `active_cells`) and the rows of non-active faces are removed.
+    `coded = true` uses the Mpfa accumulation with its shortcut, `nrowA` = number of faces of the active grid. -/
+def partialFreshSplit (nrowA ndr ndc : Nat) (coded divide : Bool) (subs : List Sub) (outer : Sub) : COO :=
+  let inner := if coded then glueAsCoded nrowA ndr ndc subs
+               else if divide then glue ndr ndc subs else glueNoScale ndr ndc subs
+  toGlobal ndr ndc { outer with loc := inner }
+
 /-- all triplets of a local matrix address existing local rows / columns -/
 def inRange (ndr ndc : Nat) (s : Sub) : Prop :=
   ∀ t ∈ s.loc, t.1 < s.l2gR.length * ndr ∧ t.2.1 < s.l2gC.length * ndc
